@@ -3,6 +3,7 @@
    output: one line per input line
      picc <cfsc> <cmiu> <plan> <blk>...             demo card over a block sequence
      sess <miu> <nnak> <nack> <fff> <mx> <cfsc> <cmiu> <fuel> <item>...     mx = max_extra_blocks or - (no budget)
+          (per item: result;pni;blocks;executions;timeouts as multiples of fwt, 0 = default)
           item = T:<apdu>:<script>:<plan> | A<0|1>:<cla>,<ins>,<p1>,<p2>,<mrl>:<data>:<script>:<plan>
           script = DDDLLC.. (pairs) or -, plan = 1,2;-;3 or -
      stream <miu> <nnak> <nack> <fff> <mx> <fuel> <cmd> <rsp>...   reader against a scripted responder
@@ -63,7 +64,8 @@ let state c =
     (hexl c.txrest) p (semis (commas zs) c.plan) (semis hexl c.execs)
 let cfg_of miu nnak nack f = { miu = zi miu; n_nak = zi nnak; n_ack = zi nack;
   fix_wtx_try = f.[0] = '1'; fix_wtx_chain = f.[1] = '1'; fix_rack = f.[2] = '1' }
-let show_o o = Printf.sprintf "%s;%s;%s;%d" (show_r o.o_res) (zs o.o_pni) (commas hexl o.o_blocks) (List.length o.o_card.execs)
+let show_o o = Printf.sprintf "%s;%s;%s;%d;%s" (show_r o.o_res) (zs o.o_pni) (commas hexl o.o_blocks) (List.length o.o_card.execs)
+    (commas (fun b -> zs (blk_timeout b)) o.o_blocks)
 
 let handle (w : string list) : string =
   match w with
